@@ -3,10 +3,9 @@ package main
 // SMT side of the verifier: sorts, background (passive form), obligations, slicing, solver portfolio.
 
 import (
-	"strconv"
-	"crypto/sha256"
 	"bytes"
 	"context"
+	"crypto/sha256"
 	"fmt"
 	"math/big"
 	"os"
@@ -14,6 +13,7 @@ import (
 	"path/filepath"
 	"regexp"
 	"sort"
+	"strconv"
 	"strings"
 	"sync"
 	"time"
@@ -54,20 +54,20 @@ type Obl struct {
 	CutSyms    []string // further constants (values of the loop's variables at entry) left unconstrained in that attempt
 	useCut     bool
 	OpaqueSpec bool // VarintEnd/VarintVal are left uninterpreted in this query
-	Name   string
-	Kind   string
-	Guard  string
-	Goal   string
-	NDecl  int
-	Pos    string
-	Expect string // "unsat" (default) or "sat" for cover / canary probes
-	Text   string // human-readable form of the goal (contract clause or Go expression)
-	ctx    *Ctx
-	Tag    map[string]string // free-form: field, message, method ... (used by known-finding matching and replay)
+	Name       string
+	Kind       string
+	Guard      string
+	Goal       string
+	NDecl      int
+	Pos        string
+	Expect     string // "unsat" (default) or "sat" for cover / canary probes
+	Text       string // human-readable form of the goal (contract clause or Go expression)
+	ctx        *Ctx
+	Tag        map[string]string // free-form: field, message, method ... (used by known-finding matching and replay)
 }
 
 type Result struct {
-	Shared string // proof shared with this alpha-equivalent obligation
+	Shared  string // proof shared with this alpha-equivalent obligation
 	Obl     *Obl
 	Res     string // unsat | sat | unknown | timeout | error
 	Backend string
